@@ -252,7 +252,7 @@ func TestC01(t *testing.T) {
 		go runChild(os.Getenv("VERIF_BIN_RACE"), fmt.Sprintf("race%d", c), 1000000+nrt*c/4, 1000000+nrt*(c+1)/4, []string{"VERIF_REALTIME=1"}, true)
 	}
 	wg.Wait()
-	code := run.Finish("two real stacks joined by the adversarial wire; per scenario PRNG-chosen: IPv4/IPv6, SACK, Reno/CUBIC, MTU 100..65535, latency, send/receive buffers 1 byte..1 MiB, 0..4 MiB per direction in both directions at once, write chunks 1..256 KiB, reader pacing and pauses, per-packet drop (uniform and bursty) / duplicate / delay (reorder) / stale replay on both directions, ISS of the active or the passive side placed just below 2^31 / 2^32 (crossings counted from the wire), three close orders. Oracle at the API boundary: byte i of direction d is f(seed,d,i); every byte returned by Read is compared, and must lie below the bytes offered to Write so far. Bulk runs in virtual time (go1.26.8 synctest bubble), a subset in real time under the race detector (go1.23.5). Scripted phase: relative scripts against one stack and a scripted peer (overlapping / out-of-order / duplicate peer data, acknowledgements ending inside segments or covering several, SACK, duplicate ACKs, waits that let retransmissions happen), each played with the sequence spaces far from and just below 2^31 / 2^32; every byte Read returns and every byte of every emitted data segment is compared with the position-coded stream. distinct = distinct (configuration class x observed fault class); non-trivial = connected and at least one byte verified",
+	code := run.Finish("two real stacks joined by the adversarial wire; per scenario PRNG-chosen: IPv4/IPv6, SACK, Reno/CUBIC, MTU 100..65535, latency, send/receive buffers 1 byte..1 MiB, 0..4 MiB per direction in both directions at once, write chunks 1..256 KiB, reader pacing and pauses, per-packet drop (uniform and bursty) / duplicate / delay (reorder) / stale replay on both directions, ISS of the active or the passive side placed just below 2^31 / 2^32 (crossings counted from the wire), three close orders. Oracle at the API boundary: byte i of direction d is f(seed,d,i); every byte returned by Read is compared, and must lie below the bytes offered to Write so far. Bulk runs in virtual time (go1.26.8 synctest bubble), a subset in real time under the race detector (go1.23.5). Scripted phase: relative scripts against one stack and a scripted peer (overlapping / out-of-order / duplicate peer data, acknowledgements ending inside segments or covering several, SACK, duplicate ACKs, waits that let retransmissions happen), each played with the sequence spaces far from and just below 2^31 / 2^32; every byte Read returns and every byte of every emitted data segment is compared with the position-coded stream. distinct = distinct (configuration class x observed fault class); non-trivial = connected and at least one byte verified Later additions: The wire can also make the sending link refuse a packet (WritePacket error); scripts contain a path-MTU decrease with data outstanding and a segment spanning the whole receive window. Half of the path-MTU decreases come behind a backlog of small writes and a large one.",
 		[]string{"packets are dropped/duplicated/delayed/replayed but never altered (the stack does not verify checksums on receive)", "scenarios that do not complete by the virtual deadline are counted here and judged by C02"})
 	os.Exit(code)
 }
